@@ -358,6 +358,19 @@ def install(E):
         R = c.h1.set_of(c.res.t)
         return z3.ForAll([s], z3.Implies(R[s], sat(c.formula.t)[s]), patterns=[R[s]])
 
+    def eu_cut_base(c, path):
+        s = X('s')
+        R = c.h1.set_of(c.res.t)
+        phi1 = kid1(kid0(c.formula.t))
+        return z3.ForAll([s], z3.Implies(sat(phi1)[s], R[s]), patterns=[sat(phi1)[s]])
+
+    def eu_cut_step(c, path):
+        s, d = X('s'), X('d')
+        R = c.h1.set_of(c.res.t)
+        phi0 = kid0(kid0(c.formula.t))
+        return z3.ForAll([s, d], z3.Implies(z3.And(sat(phi0)[s], edge(c.h0, c.kripke.t, s, d), R[d]), R[s]),
+                         patterns=[z3.MultiPattern(sat(phi0)[s], R[d])])
+
     def eu_cut_complete(c, path):
         s = X('s')
         R = c.h1.set_of(c.res.t)
@@ -375,8 +388,12 @@ def install(E):
         touches=TOUCH, loop_touches={2: {'dd', 'dv', 'sets'}, 3: {'dd', 'dv', 'sets'}, 4: {'dd', 'dv', 'sets'}},
         loops={2: eu_l2, 3: eu_l3, 4: eu_l4},
         hints={'call': {'DiGraph.get_reachable_set_from': eu_reach_hint},
-               'cuts': {'ensures:result_is_sat': [eu_cut_lfp_instance, eu_cut_sound, eu_cut_complete],
-                        'ensures:memo_inv': [eu_cut_lfp_instance, eu_cut_sound, eu_cut_complete]}}, owner='C01'))
+               'heavy_requires': ('kripke_wf',), 'slice_more': r':cut[345]$',
+               # structural invariants of the constructed graph do not need the semantics axioms
+               'slice_heavy': r':(edges_phi0|edges_phi1|edges_phi1_so_far|edges_sound|edges_kept|nodes_within|nodes_added|subgraph_|memo_below|operands_|'
+                              r'iterated_|current|operand_sets|since_entry|phi[01]:preserved|nodes_cover_phi0:preserved|memo_inv:preserved|:cut3$|:cut4$|:cut5$)',
+               'cuts': {'ensures:result_is_sat': [eu_cut_lfp_instance, eu_cut_sound, eu_cut_base, eu_cut_step, eu_cut_complete],
+                        'ensures:memo_inv': [eu_cut_lfp_instance, eu_cut_sound, eu_cut_base, eu_cut_step, eu_cut_complete]}}, owner='C01'))
     reg(Contract(
         '_checkEG', 'ctl', PARAMS, ret='set',
         requires=lambda c: common_requires(c, lambda f: z3.And(is_tag(f, 'E'), is_tag(kid0(f), 'G'))),
